@@ -332,7 +332,7 @@ def child_main():
                         else:
                             raise SystemExit('unknown op %r' % name)
                     r['raised'] = None
-                except Exception as e:  # noqa
+                except BaseException as e:  # noqa
                     r = {'raised': type(e).__name__}
                 r['reports'] = [canon_report(x) for x in reports[n0:]]
                 out['ops'].append(r)
@@ -399,12 +399,12 @@ def child_main():
                 try:
                     res = real(doc, errs)
                 except ParseError as e:
-                    events.append([doc, 'ParseError', len(errs) - n0])
+                    events.append([doc, 'ParseError', len(errs) - n0, 0])
                     raise
-                except Exception as e:  # noqa
-                    events.append([doc, type(e).__name__, len(errs) - n0])
+                except BaseException as e:  # noqa
+                    events.append([doc, type(e).__name__, len(errs) - n0, 0])
                     raise
-                events.append([doc, None, len(errs) - n0])
+                events.append([doc, None, len(errs) - n0, len([e for e in errs[n0:] if e.is_fatal()])])
                 return res
             return parser
         fb_calls = []
@@ -413,6 +413,24 @@ def child_main():
         def wrap_fb(errs, parsed_doc, ctx):
             fb_calls.append(ctx.fullName())
             return real_fb(errs, parsed_doc, ctx)
+        # every to_stan failure (get_to_stan_error is called exactly then), and whether it happened while a FIELD was rendered
+        stan_fail = []
+        in_field = [0]
+        real_gtse = epydoc2stan.get_to_stan_error
+        real_field_format = epydoc2stan.Field.format
+
+        def wrap_gtse(e):
+            stan_fail.append([bool(in_field[0]), type(e).__name__])
+            return real_gtse(e)
+
+        def wrap_field_format(self):
+            in_field[0] += 1
+            try:
+                return real_field_format(self)
+            finally:
+                in_field[0] -= 1
+        epydoc2stan.get_to_stan_error = wrap_gtse
+        epydoc2stan.Field.format = wrap_field_format
         epydoc2stan.get_parser_by_name = wrap_get_parser
         epydoc2stan.format_docstring_fallback = wrap_fb
         out['qn'] = qn
@@ -446,13 +464,17 @@ def child_main():
                 out['src_qn'] = src_qn
                 out['docstring'] = ob.docstring if src_ob is ob else src_ob.docstring
                 res = {}
+                first_d = True
                 for step in order:
                     if step == 's':
                         out['stage'] = 'format_summary'
                         res['s'] = epydoc2stan.format_summary(ob)
                     elif step == 'd':
                         out['stage'] = 'format_docstring'
+                        n_sf = len(stan_fail)
                         res['d'] = epydoc2stan.format_docstring(ob)
+                        out['field_to_stan_failed'] = len([x for x in stan_fail[n_sf:] if x[0]])
+                        out['field_to_stan_errors'] = sorted(set(x[1] for x in stan_fail[n_sf:] if x[0]))
                     else:
                         out['stage'] = 'format_toc'
                         res['t'] = epydoc2stan.format_toc(ob)
@@ -485,6 +507,7 @@ def child_main():
                 mine = [e for e in events if e[0] == text_of_target(src_ob, case)]
                 out['parser_raised'] = next((e[1] for e in mine if e[1]), None)
                 out['recovered_errs'] = max([e[2] for e in mine if not e[1]] or [0])
+                out['fatal_left'] = max([e[3] for e in mine if not e[1]] or [0])
                 out['fallback_called'] = bool(fb_calls)
                 out['fallback_ctx'] = sorted(set(fb_calls))
                 out['to_node_failed'] = node_fail[0] if node_fail else None
@@ -500,7 +523,7 @@ def child_main():
                     REF_CACHE[(fmt, pt)] = other_output(build(CLEAN_SRC, fmt, pt))
                 out['other_ref'] = REF_CACHE[(fmt, pt)]
                 out['stage'] = 'done'
-        except Exception as e:  # noqa
+        except BaseException as e:  # noqa  (SystemExit / KeyboardInterrupt escaping a format_* call abort the run just the same)
             tb = traceback.extract_tb(e.__traceback__)
             out['raised'] = '%s: %s' % (type(e).__name__, str(e)[:200])
             out['where'] = ['%s:%d:%s' % (os.path.basename(f.filename), f.lineno, f.name) for f in tb[-4:]]
@@ -509,6 +532,8 @@ def child_main():
             model.Documentable.report = orig_report
             epydoc2stan.get_parser_by_name = real_get_parser
             epydoc2stan.format_docstring_fallback = real_fb
+            epydoc2stan.get_to_stan_error = real_gtse
+            epydoc2stan.Field.format = real_field_format
             for cls, orig_tn in wrapped:
                 cls.to_node = orig_tn
         return out
